@@ -361,15 +361,18 @@ def run(ctx):
     ctx.notes["protocol_behaviours_from_TLC"] = len(behs)
     ctx.notes["random_histories"] = nproto - len(behs)
     ctx.notes["fit_quality_cases"] = len(fc)
+    log = (ctx.work / "tlc_Trace_C14_Trace_C14.log").read_text()
+    ctx.notes["protocol_histories_conforming_to_DepFit_spec"] = log.count('<<"CONFORMANT"')
     # self-test of the binding: corrupt one recorded field and require rejection
     bad = dict(recs[1])
     bad["events"] = [dict(e) for e in bad["events"]]
-    bad["events"][-1] = dict(bad["events"][-1], internal=bad["events"][-1]["internal"] + ["a"])
+    last = dict(bad["events"][-1])
+    last["pdev"] = dict(last["pdev"], b=500000000)
+    bad["events"][-1] = last
     bad["id"] = 1
     rej = ctx.validate("Trace_C14", "Trace_C14.cfg", [bad])
-    ctx.traces -= 0
-    if "InternalFitSequence" not in rej.get(1, []):
-        raise Machinery("self-test: corrupted internal fit sequence was not rejected")
+    if "FittedAfterConditioners" not in rej.get(1, []):
+        raise Machinery("self-test: corrupted parameter deviation at the end of a round was not rejected")
 
 
 def replay(ctx, case):
